@@ -178,6 +178,19 @@ def text_mutants(src, rng):
         m = list(lines)
         m[i] = m[i].replace(a, b, 1)
         out.append(("wrong-article", "\n".join(m)))
+    # wrong pronoun / article in other positions
+    for kind, a, b in [("wrong-pronoun-for-loop", "Für jede Zahl ", "Für jeden Zahl "), ("wrong-pronoun-for-each", "Für jeden Text ", "Für jede Text "),
+                       ("wrong-article-return-type", ", gibt eine Zahl zurück", ", gibt einen Zahl zurück"),
+                       ("wrong-article-return-type", ", gibt einen Text zurück", ", gibt eine Text zurück"),
+                       ("wrong-article-type-check", " eine Zahl ist", " ein Zahl ist"), ("wrong-article-type-check", " ein Text ist", " eine Text ist")]:
+        idx = [i for i, l in enumerate(lines) if a in l]
+        if idx:
+            i = idx[rng.below(len(idx))]
+            m = list(lines)
+            m[i] = m[i].replace(a, b, 1)
+            out.append((kind, "\n".join(m)))
+    out.append(("wrong-article-standardwert", src + "Die Zahl sw_z ist der Standardwert von einem Zahl.\n"))
+    out.append(("wrong-article-parameter-less", src + "Der Zahl falsch_dekl ist 1.\n"))
     # a Konstante is assigned to / passed as Referenz / element-assigned
     out.append(("assign-to-konstante", src + "Die Konstante KONST_A ist 5.\nSpeichere 6 in KONST_A.\n"))
     out.append(("compound-assign-to-konstante", src + "Die Konstante KONST_B ist 5.\nErhöhe KONST_B um 1.\n"))
